@@ -205,6 +205,8 @@ macro_rules! droppable {
 droppable!(H, "H", repr(transparent), Box<u64>, |i: u64| Box::new(i), |x: &Box<u64>| **x);
 droppable!(O3, "O3", repr(transparent), [u8; 3], |i: u64| [i as u8, (i >> 8) as u8, (i >> 16) as u8], |x: &[u8; 3]| x[0] as u64 | (x[1] as u64) << 8 | (x[2] as u64) << 16);
 droppable!(A16, "A16", repr(C, align(16)), u64, |i: u64| i, |x: &u64| *x);
+// an owning type of 40 bytes (size thresholds in generated clone / conversion code)
+droppable!(H40, "H40", repr(C), (Box<u64>, [u64; 4]), |i: u64| (Box::new(i), [i, !i, 3, 4]), |x: &(Box<u64>, [u64; 4])| if x.1[0] == *x.0 && x.1[1] == !*x.0 { *x.0 } else { 0xBAD0_0000_0000 | (*x.0 & 0xFFFF_FFFF) });
 
 macro_rules! zst {
     ($name:ident, $tag:expr, $repr:meta) => {
